@@ -12,7 +12,7 @@ from vp.world import (BINDING_HTTP_POST, BINDING_HTTP_REDIRECT, BINDING_SOAP, BI
 TMP = [None]
 _c = {}
 ALPH = ['a', ' ', '"', "'", '<', '>', '&', '=', '+', '%', '#', ';', '\n', '\r', '\t', 'é', '€', '\U0001F600', '\x01',
-        '{', '}', '/', '?', '\\', '$']
+        '{', '}', '/', '?', '\\', '$', '\x85', '\x9f']       # (two C1 controls: HTML remaps their numeric references)
 FIXED = ['&Signature=x', '&SAMLRequest=x', '"/><input name="x', '%26SigAlg%3D', 'https://sp.example/return?next=%2Fhome&a=b',
          '{action}', '{0}', '{{x}}', '%', '%zz', 'x' * 4096, '</form><script>alert(1)</script>', "' onfocus='x", 'a&amp;b', '&#38;']
 DESTS = ['https://idp.example/sso', 'https://idp.example/sso?tenant=a%20b&x=1']
@@ -97,6 +97,26 @@ def same_element(a, b):
     return True
 
 
+def deflate_lookalikes(kmax=2):
+    """Every string of up to kmax ASCII characters (NUL and CR excluded) whose bytes are a complete raw DEFLATE stream
+    (found by exhaustive search), alone and followed by more text: payloads a decoder that 'tries to inflate' would alter."""
+    import zlib
+    pr = [chr(i) for i in range(1, 128) if i != 13]
+    found = []
+    for k in range(1, kmax + 1):
+        for tup in itertools.product(pr, repeat=k):
+            st = ''.join(tup)
+            try:
+                d = zlib.decompressobj(-15)
+                d.decompress((st + 'tail').encode('ascii'))
+                if d.eof:
+                    found.append(st)
+            except zlib.error:
+                pass
+    found = found[:400]
+    return found + [f + '<x/>' for f in found[:60]] + ['+(@@@', 'K\x04\x00']
+
+
 def messages():
     """Library-produced messages (strings as apply_binding receives them) + hand-made ones."""
     if 'msgs' in _c:
@@ -134,6 +154,9 @@ def messages():
     lb = forge.request(env.BASE, kind='LogoutRequest').replace('alice', 'a\u2028b\u2029c\u0085d').replace('ID="Q1"', 'ID="Q1" Consent="x\u2028y"')
     out.append(('forged-unicode-line-boundaries', 'SAMLRequest', 'logout_request', lb))
     out.append(('forged-unicode-line-boundaries-with-declaration', 'SAMLRequest', 'logout_request', '<?xml version="1.0" encoding="UTF-8"?>\n' + lb))
+    # an unqualified element (no default namespace in scope) inside Extensions
+    out.append(('forged-unqualified-extension', 'SAMLRequest', 'authn_request',
+                forge.request(env.BASE, extensions='<login_hint>alice@example.org</login_hint><x:y xmlns:x="urn:vp:x"><inner a="1"/></x:y>')))
     out.append(('forged-declaration-crlf', 'SAMLRequest', 'logout_request',
                 '<?xml version="1.0"?>\r\n' + forge.request(env.BASE, kind='LogoutRequest').replace('alice', 'x  y\n z')))
     _c['msgs'] = out
@@ -389,6 +412,7 @@ def run(ctx):
     tasks += [('msg', name, typ, mt, m) for name, typ, mt, m in msgs]
     tasks += [('raw', chr(i)) for i in range(1, 256) if i != 13] + [('raw', 'x' * 65536), ('raw', '€' * 300)]
     tasks += [('raw', s) for s in strings(1)]
+    tasks += [('raw', s) for s in deflate_lookalikes(3 if ctx.thorough else 2)]
     tasks += [('soapobj', 'pack'), ('soapobj', 'soap')]
     ascii_alph = [a for a in ALPH if all(ord(ch) < 128 for ch in a) and a not in ('\r', '\x01', '\x00')]
     raws = [''.join(t) for k in (1, 2) for t in itertools.product(ascii_alph, repeat=k)] + [f for f in FIXED if all(ord(ch) < 128 for ch in f)] + \
